@@ -75,10 +75,11 @@ def solve(spec):
     kw = {}
     if spec.get("reset"):
         kw = managers.CycleResetHeuristic().args_for_thermohydraulic_solver(r)
-    if spec.get("default_decorator", True):
-        sol.solve_receiver(r, mat, fl, **kw)       # documented default decorator=None
-    else:
-        sol.solve_receiver(r, mat, fl, decorator=lambda x, n: x, **kw)
+    with common.serial_pools():
+        if spec.get("default_decorator", True):
+            sol.solve_receiver(r, mat, fl, **kw)       # documented default decorator=None
+        else:
+            sol.solve_receiver(r, mat, fl, decorator=lambda x, n: x, **kw)
     return r, fl
 
 
@@ -358,6 +359,15 @@ def run(ctx):
          "inlet": [800.0, 810.0, 795.0], "nr": 6},
         {"name": "1D transient with cycle reset", "ndim": 1, "times": [0.0, 1.0, 2.0, 3.0, 4.0], "panels": [[2], [3]], "paths": [[0], [1]],
          "steady": False, "reset": True, "period": 2.0, "qt": [1.0, 1.0, 0.5, 1.0, 0.5]},
+    ]
+    # tubes of realistic length (8 m): the fluid heats up by about 20 K along a panel, comparable with the
+    # wall-to-fluid film drop, so cooling the slice of a 1D/2D tube with the fluid of the wrong height is visible
+    # in the energy balance (with 0.2 m tubes the rise is 0.3 K and nothing about the axial position shows)
+    specs += [
+        {"name": "1D long tubes (fluid rise ~ film drop), steady", "ndim": 1, "times": [0.0, 1.0], "panels": [[3, 2], [2]],
+         "paths": [[0, 1]], "H": 8000.0},
+        {"name": "2D long tubes (fluid rise ~ film drop), steady", "ndim": 2, "times": [0.0, 1.0], "panels": [[2], [1, 3]],
+         "paths": [[0, 1]], "H": 8000.0},
     ]
     if not ctx.quick():
         specs += [
